@@ -214,6 +214,9 @@ func (b *build) isolatedReferences(base, scnPath string, s *scn.Scenario, res *s
 				}
 			}
 		}
+		if s.Kind == "C" {
+			return &scn.Violation{Oracle: "O1-equals-alone", Sig: "isolated:cli", Detail: fmt.Sprintf("file %s (%s): what php-parser %s produces for it differs between a run ALONE inside the process that had just run the whole tree concurrently and a run ALONE in a fresh process: state left behind in the process changes the result. fresh process: %s", s.Inputs[k].Path, s.Inputs[k].Name, strings.Join(s.CLIFlags, " "), strings.Join(iso.Trace, " | "))}, ""
+		}
 		pl := flattenPipes(s)[k]
 		in := s.Inputs[pl.Input]
 		opk := ""
